@@ -374,6 +374,13 @@ func observePlain(pm *openfgav1.AuthorizationModel, labels []string) (o plainObs
 		return
 	}
 	o.rev2Dot = rev2.GetDOT()
+	if after := g.GetDOT(); after != o.dot {
+		o.revOK = "the original graph's DOT changed after it was reversed: " + firstLineDiff(o.dot, after)
+	}
+	// a second reversal of the same graph must give the same reversed graph
+	if again, err := g.Reversed(); err != nil || again.GetDOT() != o.revDot {
+		o.revOK = "reversing the same graph a second time gives a different DOT"
+	}
 	if rev2.GetDrawingDirection() != g.GetDrawingDirection() {
 		o.revOK = "drawing direction not restored by reversing twice"
 	}
